@@ -96,6 +96,15 @@ def decide(c, sub=None, atoms=None, oracle=None, conds=None):
     s = str(c)
     if s in atoms:
         return atoms[s]
+    if conds and str(getattr(c, "func", "")) == "ite" and len(getattr(c, "args", ())) == 3:
+        # a boolean-valued ite term: its condition and branches name registered conditions
+        t = decide(conds.get(str(c.args[0]), c.args[0]), sub, atoms, oracle, conds)
+        br = [decide(conds.get(str(x), x), sub, atoms, oracle, conds) if (str(x) in conds or x in (sp.true, sp.false, True, False) or hasattr(x, "func")) else None for x in c.args[1:]]
+        if t is None:
+            return br[0] if br[0] == br[1] else None
+        return br[0] if t else br[1]
+    if conds and s in conds and conds[s] is not c and not isinstance(c, tuple) and isinstance(conds[s], tuple):
+        return decide(conds[s], sub, atoms, oracle, conds)
     if hasattr(c, "xreplace"):
         v = c.xreplace(sub)
         if v is sp.true or v is sp.false:
